@@ -62,20 +62,15 @@ class ReportPriority(SCSICommand):
         :return result: a dic
         """
         result = {}
-        #  get the data after the ppd_len
-        _data = data[4 : scsi_ba_to_int(data[:4])]
+        #  get the data after the ppd_len, which does not count itself
+        _data = data[4 : 4 + scsi_ba_to_int(data[:4])]
         _descriptors = []
-        while len(_data):
+        while len(_data) >= 8:
             _r = {}
-            _dict = dict(cls._datain_bits.copy)
-            _dict.update(
-                {
-                    "transport_id": [hex(scsi_ba_to_int(_data[6:7])), 8],
-                }
-            )
-            decode_bits(_data[: 8 + scsi_ba_to_int(_data[6:7])], _dict, _r)
+            decode_bits(_data, cls._data_bits, _r)
+            _r["transport_id"] = _data[8 : 8 + _r["adlen"]]
             _descriptors.append(_r)
-            _data = _data[scsi_ba_to_int(_r["adlen"]) + 8 :]
+            _data = _data[_r["adlen"] + 8 :]
         result.update(
             {
                 "priority_descriptors": _descriptors,
